@@ -84,6 +84,11 @@ CLAIMED = {
             'the extracted timeline accumulates the same way; Use atoms are never unified; capacity >= 0 and amount >= 0 are part of the synthetic constructor / predicate; ordering literals as in C04. '
             'Optimality of the MCS enumeration is not decided.',
             'Rests on C01.R1/R2 (gate) and C11.', 'DESIGN.md 4 C05'),
+    'C06': ('linear-atom normalisation of the configured INIT_STRING (LA and DL forms) against the required temporal constraints; CFG typestate of the fact arm of every smart type (set_ni / apply_rule / restore_ni); who-must-call rule for rule application',
+            'Static: the temporal rule the build actually configures contains origin <= start <= end <= horizon, duration = end - start >= 0 (LA) / the DL form, and origin <= at <= horizon, for any re-ordering or superset; '
+            'every path that activates an atom of a smart type or a goal applies the rule exactly once under the atom\'s sigma, inherited rules first; the synthetic predicates are Intervals. '
+            'One known finding: facts on plain predicates (design decision of oRatio). Numeric satisfaction is C01/C09.',
+            'The required atoms are written in orv/rules/C06.py; the DL form is read from a configure-only run because that configuration does not compile at the pinned commit.', 'DESIGN.md 4 C06'),
 }
 
 NOT_YET = {}
